@@ -188,6 +188,35 @@ def run(tier, replay=None):
                 v.violation('a datagram whose payload chain does not end at the end of the data is accepted', {'b': bytes(d).hex()},
                             signature={'component': 'parse:trailing'})
                 break
+    # the chain rules of 3.2 on damaged lengths: whatever ParseChain of Wire.tla rejects (a payload running past the end of the data, a chain ending
+    # before it, a length below 4) must be rejected - in the clear and, for the overrun of the last payload, inside the encrypted payload
+    n['chain_rejects'] = 0
+    for m in V.vectors('mutations')['muts']:
+        if m['v'] != 'syntax':
+            continue
+        chain = bytes(m['b'])
+        data = W.enc_header(b'A' * 8, b'B' * 8, m['first'], 2, 0, 34, 0x08, 0, 28 + len(chain)) + chain
+        kind, _, _ = V.counted_parse(data)
+        n['chain_rejects'] += 1
+        if kind == 'ok':
+            v.violation(f'a payload chain that does not end exactly at the end of the data ({m["kind"]} mutation at offset {m["at"]}) is accepted',
+                        {'b': data.hex()}, signature={'component': 'parse:chain-end', 'kind': m['kind']})
+            break
+    for vec in [x for x in msgs if len(x['ps']) == 1 and expressible(x['ps'])][:60]:
+        cr, keys = V.make_crypto(256, 12)
+        for over in (1, 7):
+            first, body = W.enc_chain([denorm(p) for p in vec['ps']])
+            body = bytearray(body)
+            ln = int.from_bytes(body[2:4], 'big') + over
+            body[2:4] = ln.to_bytes(2, 'big')
+            sealed = W.enc_message({'spi_i': b'A' * 8, 'spi_r': b'B' * 8, 'xchg': 37, 'response': False, 'initiator': True, 'mid': 1}, [],
+                                   sk={'ke': keys['ke'], 'ka': keys['ka'], 'integ': keys['integ'], 'iv': b'\x33' * 16, 'raw_inner': (first, bytes(body))})
+            kind, _, _ = V.counted_parse(sealed, crypto=cr)
+            n['chain_rejects'] += 1
+            if kind == 'ok':
+                v.violation(f'inside the encrypted payload: a last payload whose length is overstated by {over} is accepted', {'payload': vec['ps'][0]['t']},
+                            signature={'component': 'parse:chain-end', 'kind': 'inner'})
+                break
     v.coverage.update({'evaluations': sum(n.values()), 'distinct_nontrivial': len(distinct), 'counts': n,
                        'rule': 'Wire.tla universe: all headers (version nibbles x exchange types x 8 flag combinations x Message IDs) with an empty chain; '
                                'every single payload instance (SA with 1-3 proposals incl. the same suite offered twice and a transform listed twice, SPI sizes 0/4/8, transforms with/without key length; KE; IDi/IDr of each type; '
